@@ -14,7 +14,7 @@ import (
 func init() {
 	Register(&Spec{
 		ID:           "C14",
-		Explanation:  "Decides structural necessary conditions of bounded, exactly framed decoding: (R1) every allocation in Decoder.Decode, Unmarshal and demuxArena whose size derives from header bytes is dominated, on the continuing edge, by the comparison of that size against the configured limit (MaxMessageSize, maxStreamSegments, the input length, maxInt), and demuxArena's slicing is preceded at both call sites by the test that the data covers the header's total; (R2) streamHeader.totalSize adds overflow-checked segment sizes, Decode rejects MaxMessageSize < 8, too many segments before reading the rest of the header, a header larger than the limit and a total larger than the limit minus the header; (R3) io.EOF is returned only for the read of the first header word, every other read error is wrapped; (R4) with buffer reuse the arena slices handed out are capped (three-index slices) so appends cannot scribble on the shared buffer. (R5) Message.Reset re-initialises, on every path, every field of Message that any other function writes. (R3p) in the packed stream reader the error of a byte read after the tag byte is passed on only where it is known not to be io.EOF (a packed stream cut inside a word is a truncation; shared with C13-R3e). Does NOT decide that decoded messages equal the encoded ones nor exact allocation totals.",
+		Explanation:  "Decides structural necessary conditions of bounded, exactly framed decoding: (R1) every allocation in Decoder.Decode, Unmarshal and demuxArena whose size derives from header bytes is dominated, on the continuing edge, by the comparison of that size against the configured limit (MaxMessageSize, maxStreamSegments, the input length, maxInt), and demuxArena's slicing is preceded at both call sites by the test that the data covers the header's total; (R2) streamHeader.totalSize adds overflow-checked segment sizes, Decode rejects MaxMessageSize < 8, too many segments before reading the rest of the header, a header larger than the limit and a total larger than the limit minus the header; (R3) io.EOF is returned only for the read of the first header word, every other read error is wrapped; (R4) with buffer reuse the arena slices handed out are capped (three-index slices) so appends cannot scribble on the shared buffer. (R5) Message.Reset re-initialises, on every path, every field of Message that any other function writes. (R3p) in the packed stream reader the error of a byte read after the tag byte is passed on only where it is known not to be io.EOF (a packed stream cut inside a word is a truncation; shared with C13-R3e). (R6) the Encoder's scratch slices start empty in every Encode (shared with C04-R7). Does NOT decide that decoded messages equal the encoded ones nor exact allocation totals.",
 		ExtraConfigs: true,
 		Run:          runC14,
 	})
@@ -63,6 +63,9 @@ func runC14(ctx *Ctx) {
 	// the packed variant of the stream (NewPackedDecoder): a stream that ends
 	// inside a packed word is a truncation, not a clean end (shared with C13-R3e)
 	ruleCountByteEOF(ctx, "C14-R3p")
+	// frames are self-delimiting only if each Encode writes its own segments
+	// and nothing else (shared with C04-R7)
+	ruleEncoderScratchStartsEmpty(ctx, "C14-R6")
 	r := ctx.Rep
 	if ctx.Primary {
 		r.Floor("C14-R1", 9)
